@@ -3,7 +3,7 @@
 sid=$1; chk=$2; tier=${3:-quick}
 cd /repo || exit 2
 git diff --quiet || { echo "/repo dirty"; exit 2; }
-git apply /verif/seeded/$sid/patch.diff || exit 2
+git apply /verif/seeded/$sid/patch.diff || { echo "patch does not apply"; exit 2; }
 cd /verif && timeout 3000 ./check $chk --tier $tier > /tmp/try_${sid}_${chk}.log 2>&1; rc=$?
 git -C /repo checkout -- . 
 echo "seed=$sid check=$chk tier=$tier rc=$rc $(grep -c '^VIOLATION' /tmp/try_${sid}_${chk}.log) violation lines; $(grep -m1 'clause' /tmp/try_${sid}_${chk}.log)"
